@@ -145,5 +145,5 @@ def check_decrypt_delegation(rep, prog):
     en = prog.method('pgpy.pgp', 'PGPMessage', 'encrypters')
     for s in Interp(prog, Scenario(inline=noinline)).run(en):
         r = render(s.ret)
-        rep.check('m.encrypter' in r and 'isinstance(m, PKESessionKey)' in r and 'self._sessionkeys' in r, 'C16.6', 'PGPMessage.encrypters', r,
+        rep.check(r.replace(' ', '') == 'set(EACH($1inself._sessionkeysifisinstance($1,PKESessionKey);$1.encrypter))', 'C16.6', 'PGPMessage.encrypters', r,
                   'the recipient set is the key ids of the public-key session-key packets of the message', where=en.where)
